@@ -9,7 +9,7 @@ PROPS['C05'] = dict(
     level_note='Negative nvec is not generated (the statement speaks of min(m, count)). Unsupported rules belong to C12. The pairing tolerance carries the conditioning of the shift-and-invert system (Frobenius bound).',
     units=[dict(name='c05', src='c05_consistency.cpp')],
     runs=dict(
-        quick=[dict(unit='c05', cases=4000, workers=4)],
+        quick=[dict(unit='c05', cases=8000, workers=4)],
         thorough=[dict(unit='c05', cases=40000, workers='all')],
     ),
     min=dict(quick=dict(cases=12000, nontrivial=4000, classes={'partial_convergence': 500, 'maxit<=1': 2000, 'accessor_between_computes': 300, 'GenEigsComplexShiftSolver': 800, 'SymGEigsShiftSolver<Cayley>': 300, 'SymGEigsShiftSolver<Buckling>': 300}),
